@@ -642,7 +642,7 @@ pub fn check(args: &Args) -> i32 {
             }
         },
         "assumptions": [
-            "inputs <= 1 MiB; stack budget inside gimli 192 KiB per call; per-call reader-op budget 64*n+4096",
+            "inputs <= 1 MiB; stack budget inside gimli 512 KiB per call; per-call reader-op budget 64*n+4096",
             "the simulated caller ignores errors and keeps calling but never commits documented API misuse"
         ],
         "wall_s": wall,
